@@ -572,6 +572,14 @@ func (cx *Ctx) factoryCallsOfStep(s *Step, role, factoryKey string) []*ssa.Call 
 			continue
 		}
 		for _, c := range callsIn(f) {
+			// the (former) factory called from inside the role closure: `func() error { return check(a, b, c) }`
+			if cc, isCall := c.(*ssa.Call); isCall {
+				if fc := isFactoryCall(cc); fc != nil && !seen[fc] {
+					seen[fc] = true
+					out = append(out, fc)
+					continue
+				}
+			}
 			if c.Common().IsInvoke() || calleeOf(c) != nil {
 				continue
 			}
@@ -1193,4 +1201,46 @@ func (cx *Ctx) checkStorageContext(r *Report) {
 	if n == 0 {
 		r.Fail("R-CTX", "#storage-calls", "", "no storage call with a context argument found in the handlers' scope")
 	}
+}
+
+// followDelegation: fn only hands on the verdict of one module function - `func() error { return g(a, b) }`, also
+// with the result kept in a captured variable first (`err = g(a, b); return err`): g (repeatedly, three levels).
+func (cx *Ctx) followDelegation(fn *ssa.Function) *ssa.Function {
+	fx := cx.Fx
+	for d := 0; d < 3 && fn != nil; d++ {
+		if len(fn.Blocks) != 1 {
+			return fn
+		}
+		var call *ssa.Call
+		n := 0
+		for _, c := range callsIn(fn) {
+			if _, isB := c.Common().Value.(*ssa.Builtin); isB {
+				continue
+			}
+			n++
+			call, _ = c.(*ssa.Call)
+		}
+		rets := returnsOf(fn)
+		if n != 1 || call == nil || len(rets) != 1 || len(rets[0].Results) != 1 {
+			return fn
+		}
+		g := calleeOf(call)
+		if g == nil || g.Blocks == nil || g.Pkg == nil || !isModulePath(g.Pkg.Pkg.Path()) {
+			return fn
+		}
+		rv := rets[0].Results[0]
+		same := rv == ssa.Value(call)
+		if !same {
+			for _, a := range fx.aliasesOf(call) {
+				if a == rv {
+					same = true
+				}
+			}
+		}
+		if !same {
+			return fn
+		}
+		fn = g
+	}
+	return fn
 }
